@@ -322,7 +322,9 @@ RET_TEXT = {"u64": " -> u64", "unit": "", "refarg": " -> &'a u64", "refdeps": " 
             "implfp": " -> impl Fp", "explicit_unit": " -> ()",
             "boolr": " -> bool", "u8r": " -> u8", "u32r": " -> u32", "i32r": " -> i32", "usizer": " -> usize",
             "iter": " -> impl Iterator<Item = u64>", "tuple2": " -> (u64, u64)", "arr2r": " -> [u64; 2]", "range": " -> std::ops::Range<u64>",
-            "implfn": " -> impl Fn(u64) -> u64", "optt": " -> Option<Tracked>", "resunit": " -> Result<(), u64>"}
+            "implfn": " -> impl Fn(u64) -> u64", "optt": " -> Option<Tracked>", "resunit": " -> Result<(), u64>",
+            "vecr": " -> Vec<u64>", "stringr": " -> String", "implfut": " -> impl std::future::Future<Output = u64>",
+            "implfut_drop": " -> impl std::future::Future<Output = u64> + Send"}
 
 
 def ret_tail(fn, ch, depsb=None):
@@ -375,6 +377,16 @@ def ret_tail(fn, ch, depsb=None):
     elif fn.ret == "resunit":
         lines.append(f"let __r = sim::exit(__f, &[{ch}]);")
         lines.append("if __r & 1 == 0 { Ok(()) } else { Err(__r) }")
+    elif fn.ret == "vecr":
+        lines.append(f"let __r = sim::exit(__f, &[{ch}]);")
+        lines.append("sim::spare_vec(__r)")
+    elif fn.ret == "stringr":
+        lines.append(f"let __r = sim::exit(__f, &[{ch}]);")
+        lines.append("sim::spare_string(__r)")
+    elif fn.ret in ("implfut", "implfut_drop"):
+        # a NON-async function that does its work when called and hands back a ready future
+        lines.append(f"let __r = sim::exit(__f, &[{ch}]);")
+        lines.append("std::future::ready(__r)")
     else:
         raise ValueError(fn.ret)
     return lines
@@ -843,6 +855,27 @@ for _m in range(12):
                        ret=_rng.choice(_RETS), is_async=_asy, vis=_rng.choice(["pub", "pub", "pub(crate)"])))
     module(f"rmod{_m}", f"Rmod{_m}", _fns, fillers=tuple(_rng.sample(range(_k), _rng.choice([0, 1, 2]))))
 
+
+# ==== owned buffers with spare capacity, sync fns returning futures, deep chains ==
+for _r in ("vecr", "stringr"):
+    single(Fn(f"own_{_r}", ("impl", ["F0"]), ["u64", "u64"], ret=_r, calls=["f0"], props=("C01", "C14")))
+    single(Fn(f"aown_{_r}", ("impl", ["Af0"]), ["u64", "u64"], ret=_r, is_async=True, calls=["af0"], props=("C01", "C14")))
+    single(Fn(f"ndown_{_r}", ("nodeps", []), ["u64"], opts="no_deps", ret=_r, props=("C01", "C14")))
+module("mown", "Mown", [Fn("mown_vec", ("impl", ["F0"]), ["u64", "u64"], ret="vecr"), Fn("mown_string", ("impl", ["F0"]), ["u64"], ret="stringr"),
+                        Fn("amown_vec", ("impl", ["Af0"]), ["u64"], ret="vecr", is_async=True)], props=("C01", "C14"))
+single(Fn("fut_sync", ("impl", ["F0"]), ["u64", "u64"], ret="implfut", calls=["f0"]))
+single(Fn("fut_sync_drop", ("impl", ["F0"]), ["u64", "u64"], ret="implfut_drop", calls=["f0"]))
+single(Fn("fut_nd_drop", ("nodeps", []), ["u64", "u64"], opts="no_deps", ret="implfut_drop"))
+module("mfut", "Mfut", [Fn("mfut_a", ("impl", ["F0"]), ["u64", "u64"], ret="implfut_drop"), Fn("mfut_b", ("impl", ["F0"]), ["u64", "u64"], ret="implfut")])
+_prev = "f0"
+for _d in range(1, 14):
+    single(Fn(f"chain{_d}", ("impl", [ALL_FNS[_prev].trait]), ["u64"], calls=[_prev], props=("C01", "C14")))
+    _prev = f"chain{_d}"
+_prev = "af0"
+for _d in range(1, 14):
+    single(Fn(f"achain{_d}", ("impl", [ALL_FNS[_prev].trait]), ["u64"], is_async=True, calls=[_prev], props=("C01", "C14")))
+    _prev = f"achain{_d}"
+
 N_PLAIN = METHOD_COUNTER[0]
 
 # ---- write corpus prelude -------------------------------------------------
@@ -929,7 +962,7 @@ def self_impl_fn_text(fn, id_expr):
     return f"{attrs}    {asy}fn {fn.name}{g}({', '.join(params)}){ret} {{\n{body}\n    }}\n"
 
 
-def trait_section(name, delegate, methods, async_trait=False, generic=False, supers="", scoped=False):
+def trait_section(name, delegate, methods, async_trait=False, generic=False, supers="", scoped=False, dual=False):
     """delegate: 'self' | 'ref' | 'borrow'; scoped: declare everything inside a
     module that imports Borrow / AsRef / Deref, as user code commonly does"""
     het = any(fn.hetero for fn in methods)
@@ -974,6 +1007,16 @@ def trait_section(name, delegate, methods, async_trait=False, generic=False, sup
         else:
             text += (f"{cfg}impl<const K: u16> ::core::borrow::Borrow<dyn {name}> for App<K> {{\n    fn borrow(&self) -> &(dyn {name} + 'static) {{\n"
                      f"        sim::lookup({k});\n        &self.{field}\n    }}\n}}\n")
+        if dual:
+            # the application ALSO implements the trait itself (reaching it is a mis-forwarding: id 60003)
+            text += f"{cfg}{at}impl<const K: u16> {name}{targ} for App<K> {{\n"
+            for m in methods:
+                g = method_generics(m)
+                ps = ["&self"] + [p.sig(i, m.name) for i, p in enumerate(m.params)]
+                asy = "async " if m.is_async else ""
+                text += (f"    {asy}fn {m.name}{g}({', '.join(ps)}){RET_TEXT[m.ret]} {{\n        let __f = sim::enter(60003, sim::addr(self), &[]);\n"
+                         + "\n".join("        " + l for l in ret_tail(m, "")) + "\n    }\n")
+            text += "}\n"
         APP_FIELDS.append(field)
         for m in methods:
             m.recv_expr = f"sim::addr(&app.{field})"
@@ -1093,6 +1136,18 @@ trait_section("PlainSelfRef", "self", [
     Fn("psr_other", SELF, ["u64", "name=other:selfref"]),
     Fn("apsr_this", SELF, ["name=this:selfref", "u64"], is_async=True),
 ])
+trait_section("ByRefDual", "ref", [
+    Fn("rdu1", SELF, ["u64", "u64"]),
+    Fn("rdu_lt", SELF, ["refa", "u64"], ret="refarg"),
+], supers=": 'static", dual=True)
+trait_section("ByBorrowDual", "borrow", [
+    Fn("bdu1", SELF, ["u64", "u64"]),
+    Fn("bdu_lt", SELF, ["refa", "u64"], ret="refarg"),
+], supers=": 'static", dual=True)
+trait_section("ARefDual", "ref", [
+    Fn("ardu1", SELF, ["u64", "u64"], is_async=True),
+    Fn("ardu_lt", SELF, ["refa", "u64"], ret="refarg", is_async=True),
+], async_trait=True, supers=": Sync + 'static", dual=True)
 trait_section("PlainSame", "self", [Fn("psame", SELF, ["u64", "same:u64"]), Fn("psame3", SELF, ["u64", "u64", "same:u64"])])
 
 trait_section("Plain24", "self", [Fn(f"p24_{i}", SELF, ["u64", "u64"]) for i in range(24)])
@@ -1224,6 +1279,7 @@ inversion("Inv", "InvImpl", "static", [
     (Fn("i4", SELF, ["u64", "u64", "u64", "u64"]), ("where", ["F0"]), ["f0"]),
     (Fn("i0", SELF, []), ("any", []), []),
     (Fn("i_unit", SELF, ["u64", "u64"], ret="unit"), ("impl", ["F0"]), ["f0"]),
+    (Fn("i_default", SELF, ["u64", "u64"], default_body=True), ("impl", ["F0"]), ["f0"]),
     (Fn("i6", SELF, ["u64"] * 6), ("any", []), []),
 ], delegate_ident="DelegateInv")
 inversion("InvH", "InvHImpl", "static", [
@@ -1253,6 +1309,7 @@ inversion("AInv", "AInvImpl", "static", [
     (Fn("ai_sync", SELF, ["u64", "u64"]), ("impl", ["F0"]), ["f0"]),
     (Fn("ai_unit", SELF, ["u64", "u64"], ret="unit", is_async=True), ("impl", ["Af0"]), ["af0"]),
     (Fn("ai_unit0", SELF, [], ret="unit", is_async=True), ("any", []), []),
+    (Fn("ai_default", SELF, ["u64", "u64"], is_async=True, default_body=True), ("impl", ["Af0"]), ["af0"]),
 ], delegate_ident="DelegateAInv")
 inversion("AInvH", "AInvHImpl", "static", [
     (Fn("ai_moved", SELF, ["u64", "tracked"], is_async=True), ("gen", ["Af0"]), ["af0"]),
@@ -1264,6 +1321,7 @@ inversion("DynInv", "DynInvImpl", "dyn", [
     (Fn("d2", SELF, ["u64", "u64"]), ("impl", ["F1"]), ["f1"]),
     (Fn("d3", SELF, ["u64", "u64", "u64"]), ("any", []), []),
     (Fn("d_unit", SELF, ["u64", "u64"], ret="unit"), ("impl", ["F0"]), ["f0"]),
+    (Fn("d_default", SELF, ["u64", "u64"], default_body=True), ("any", []), []),
 ])
 inversion("DynInvH", "DynInvHImpl", "dyn", [
     (Fn("d_moved", SELF, ["tracked", "u64"]), ("any", []), []),
@@ -1730,6 +1788,15 @@ def ret_fp(fn):
         return extra[fn.ret]
     if fn.ret == "resunit":
         return "match __r { Ok(()) => 0, Err(x) => x }"
+    if fn.ret == "vecr":
+        return "{ let x = __r.first().copied().unwrap_or(u64::MAX); sim::masked(|| drop(__r)); x }"
+    if fn.ret == "stringr":
+        return "{ let x = sim::str_fp(&__r); sim::masked(|| drop(__r)); x }"
+    if fn.ret == "implfut":
+        return "sim::poll_ready(__r).unwrap_or(u64::MAX)"
+    if fn.ret == "implfut_drop":
+        # the returned future is dropped unpolled: the function itself must already have run
+        return "{ drop(__r); 0 }"
     return {"u64": "__r", "unit": "{ let () = __r; 0 }", "explicit_unit": "{ let () = __r; 0 }", "implfp": "sim::Fp::fp(&__r)", "refarg": "*__r", "refdeps": "*__r",
             "result": "match __r { Ok(x) | Err(x) => x }", "opt": "__r.unwrap_or(0)",
             "tracked": "{ let id = __r.id; drop(__r); id }"}[fn.ret]
@@ -1819,7 +1886,7 @@ for fn in METHODS:
     callees = [ALL_FNS[c].method_id for c in fn.calls]
     disp += (f"    MethodModel {{ id: {fn.method_id}, name: \"{fn.name}\", section: \"{fn.section}\", is_async: {str(fn.is_async).lower()}, "
              f"dynamic: {str(fn.dynamic).lower()}, fn_id: [{fn_ids[0]}, {fn_ids[1]}], nfp: {len(fps)}, nvals: {used}, "
-             f"lookups: {getattr(fn, 'lookups', 0)}, lookup_kind: {getattr(fn, 'lookup_kind', 0)}, ret_unit: {str(fn.ret in ('unit', 'explicit_unit', 'resunit')).lower()}, "
+             f"lookups: {getattr(fn, 'lookups', 0)}, lookup_kind: {getattr(fn, 'lookup_kind', 0)}, ret_unit: {str(fn.ret in ('unit', 'explicit_unit', 'resunit', 'implfut_drop')).lower()}, "
              f"callees: &{callees}, props: &{list(fn.props)!r}, unmockable: {str(fn in UNMOCK).lower()}, "
              f"available: cfg!(not(skip_c{fn.cid})), container: {fn.cid} }},\n").replace("'", '"')
 disp += "];\n\n"
